@@ -22,7 +22,7 @@ type World struct {
 	F      *flamego.Flame
 	reqs   map[string]*Req
 	Sims   []*SimH
-	Chains map[int][]int // chain id -> hids in chain order (simulated handlers only)
+	Chains map[int][]int   // chain id -> hids in chain order (simulated handlers only)
 	Full   map[int][]Entry // chain id -> every handler in chain order
 	names  map[int]string
 	// RegErrors lists registrations flamego rejected (deterministic, reported).
